@@ -43,12 +43,7 @@ def fmtInit (ret : Nat) (sizes : List Nat) : String :=
   s!"{ret} {if ret = 0 then all.sum else 0} {all.sum} {fmtList all} leak=0"
 
 /-- Options copied by lzma_filters_copy (one allocation per filter with non-NULL options). -/
-def copiedOptions : List Filter → List Nat
-  | [] => []
-  | .lzma1 _ :: r | .lzma2 _ :: r => B.szOptionsLzma :: copiedOptions r
-  | .bcj _ (some _) :: r => B.szOptionsBcj :: copiedOptions r
-  | .delta (some _) :: r => B.szOptionsDelta :: copiedOptions r
-  | _ :: r => copiedOptions r
+def copiedOptions (fs : List Filter) : List Nat := Memusage.copiedOptions B fs
 
 def alIndex (prealloc : Nat) (ns : List Nat) : String :=
   let step := fun (acc : Heap × Option Idx × List String × Bool) (kn : Nat × Nat) =>
@@ -153,7 +148,13 @@ def step (_ : Unit) (ws : List String) : Unit × String :=
       match t.toNat?, bs.toNat?, parseChain ch with
       | some t, some bs, some fs =>
         let est := streamEncoderMtMemusage B t bs fs
-        ((), s!"{if est.isSome then 1 else 8} {u64 est}")
+        -- after " | " of the model line: what lzma_stream_encoder_mt() itself requests (exact, in order), and the
+        -- multiset of everything that can be live at once (bound for the real request list and for the peak)
+        let ini := B.szInternal :: streamEncoderMtInitAllocs B t fs
+        let all := match streamEncoderMtAllocs B t bs fs 0 with
+          | some l => B.szInternal :: l
+          | none => []
+        ((), s!"{if est.isSome then 1 else 8} {u64 est} | init={fmtList ini} all={fmtList all} group={B.szIndexGroup + INDEX_GROUP_SIZE * B.szIndexRecord}")
       | _, _, _ => ((), "bad-chain")
     else if op == "idx" then
       match t.toNat?, parseSets bs, bytesOfHex (ws.getD 4 "") with
@@ -171,7 +172,7 @@ def step (_ : Unit) (ws : List String) : Unit × String :=
     | _, _, _, _ => bad
   | ["decmt", _, flags, lt, ls, sets, _, hx] =>
     match flags.toNat?, lt.toNat?, ls.toNat?, parseSets sets, bytesOfHex hx with
-    | some fl, some lt, some ls, some ss, some inp => ((), runXzMt B fl lt ls ss inp)
+    | some fl, some lt, some ls, some ss, some inp => ((), runXzMt B ((ws.getD 1 "1").toNat?.getD 1) fl lt ls ss inp)
     | _, _, _, _, _ => bad
   | ["idxbuf", limit, hx] =>
     match limit.toNat?, bytesOfHex hx with
